@@ -168,6 +168,14 @@ func runC13(res *lib.Result, tier string, seed int64, args []string) error {
 				tbl = "GT"
 			}
 			var text string
+			// every third value is a string literal with two-byte characters: the label shows it, and the documentation next to
+			// it (in whatever script) is still to be reproduced verbatim
+			val := func(plain string) string {
+				if len(decls)%3 == 1 {
+					return []string{"\"Zo\u00eb\"", "\"K\u00f6ln\"", "\"\u00e9\""}[len(decls)%3]
+				}
+				return plain
+			}
 			switch kind {
 			case 4:
 				d.use = tbl + "." + name
@@ -179,15 +187,15 @@ func runC13(res *lib.Result, tier string, seed int64, args []string) error {
 				d.params = "aa, bb"
 			case 5:
 				d.use = tbl + "." + name
-				text = tbl + "." + name + " = 3"
+				text = tbl + "." + name + " = " + val("3")
 			case 6:
 				text = "local " + name + " = " + aliasOf
 				d.local = true
 			case 0:
-				text = "local " + name + " = 1"
+				text = "local " + name + " = " + val("1")
 				d.local = true
 			case 1:
-				text = name + " = 2"
+				text = name + " = " + val("2")
 			case 2:
 				d.local = true
 				switch r.Intn(3) {
@@ -269,7 +277,14 @@ func runC13(res *lib.Result, tier string, seed int64, args []string) error {
 		userUseLine := len(ulines)
 		ulines = append(ulines, "print("+strings.Join(guses, ", ")+")")
 		usrc := strings.Join(ulines, eol) + eol
-		if err := lib.WriteWorkspace(dir, map[string]string{"main.lua": src, "user.lua": usrc}); err != nil {
+		// every other workspace: what is on disk is an OLDER main.lua (same lines, other comment words); the client opens the
+		// file with its current text, so the documentation to show is the buffer's, not the file's
+		diskSrc := src
+		if i%2 == 0 {
+			diskSrc = strings.ReplaceAll(src, " zq", " zy")
+			res.Dist("e2e.buffer-differs-from-disk")
+		}
+		if err := lib.WriteWorkspace(dir, map[string]string{"main.lua": diskSrc, "user.lua": usrc}); err != nil {
 			return err
 		}
 		sess, err := lib.StartSession(dir, lib.AllChecksOptions())
